@@ -229,10 +229,6 @@ func (s *CDX) dependencies(ctx context.Context, bom *sbom.Document) ([]cdx.Depen
 
 	for _, e := range bom.NodeList.Edges {
 		e := e
-		if _, ok := state.addedDict[e.From]; ok {
-			continue
-		}
-
 		if _, ok := state.componentsDict[e.From]; !ok {
 			logrus.Info("serialize")
 			return nil, fmt.Errorf("unable to find component %s", e.From)
@@ -243,6 +239,12 @@ func (s *CDX) dependencies(ctx context.Context, bom *sbom.Document) ([]cdx.Depen
 		// and it is something we can parameterize
 		switch e.Type {
 		case sbom.Edge_contains:
+			// A component that was already nested under its parent was copied
+			// there by value: children added to it now would not show up
+			if _, ok := state.addedDict[e.From]; ok {
+				continue
+			}
+
 			// Make sure we have the target component
 			for _, targetID := range e.To {
 				state.addedDict[targetID] = struct{}{}
